@@ -30,14 +30,27 @@ Print Assumptions C13_valid_genesis_iff.
 
    Hypotheses, all explicit below:
      * the hash returns 32 bytes and the depth-2 zero hash has 32 bytes (root of List[Root] = root of List[DepositData]);
-     * 0 < EFFECTIVE_BALANCE_INCREMENT (Go `%` by zero panics), 0 < SLOTS_PER_EPOCH;
+     * 0 < EFFECTIVE_BALANCE_INCREMENT (Go `%` by zero panics);
+     * epc_params_ok E, the record of exactly these configuration facts (they let the C07 refinements of
+       NewShufflingEpoch / ComputeProposers apply to epc.LoadShuffling / epc.LoadProposers at the end of GenesisFromEth1):
+         ep_rounds : SHUFFLE_ROUND_COUNT <= 255                          (Go passes uint8(SHUFFLE_ROUND_COUNT))
+         ep_bytes  : forall m, Forall (fun b => b < 256) (Hash E m)      (the hash returns bytes)
+         ep_spe    : 0 < SLOTS_PER_EPOCH
+         ep_tcs    : 0 < TARGET_COMMITTEE_SIZE
+         ep_mcps   : 0 < MAX_COMMITTEES_PER_SLOT
+         ep_count  : MAX_COMMITTEES_PER_SLOT * SLOTS_PER_EPOCH < 2^32    (committee offsets are uint64 products)
+         ep_max    : MAX_EFFECTIVE_BALANCE * 255 < 2^64                  (MAX_EFFECTIVE_BALANCE * randomByte is a uint64 product)
+         ep_ephv   : 0 < EPOCHS_PER_HISTORICAL_VECTOR                    (GetRandomMix: epoch % vector length)
      * the Spec's bls_verify refuses keys / signatures that do not decode (pk_ok / sig_ok are zrnt's decoders:
        an undecodable key or signature makes ProcessDeposit skip the deposit);
      * uint64 ranges: timestamp + GENESIS_DELAY, the sum of the deposit amounts, at most 2^32 deposits (limit of the
        deposit-roots list view; ztyp refuses to append beyond it) and at most VALIDATOR_REGISTRY_LIMIT of them;
      * every deposit's pubkey is a 48-byte array (it is the cache key).
    zrnt's two refusals beyond the Spec's assertions are part of the statement: a registry below SLOTS_PER_EPOCH
-   ("not enough validators to init full featured BeaconState") and no validator active at genesis (LoadProposers).
+   ("not enough validators to init full featured BeaconState") and no validator active at genesis (LoadProposers:
+   "no active validators available to compute proposers").  That the epochs-context computation adds NO other error is
+   proved (GenesisRefine.load_epc_genesis: every validator active at genesis has the maximal effective balance, so the
+   proposer sampling of the C07 Impl model accepts its first candidate), not assumed.
    ====================================================================================================== *)
 From Coq Require Import Bool.
 From RecordUpdate Require Import RecordSet.
@@ -95,7 +108,7 @@ Print Assumptions C13_genesis_activation_refines.
 Theorem C13_genesis_from_eth1_refines :
   forall (E : Env) (pk_ok sig_ok : bytes -> bool) (eth1_block_hash : bytes) (eth1_timestamp : N) (deposits : list value),
   (forall x, length (Hash E x) = 32%nat) -> length (zero_hashes E 2) = 32%nat ->
-  0 < EFFECTIVE_BALANCE_INCREMENT (cfg E) -> 0 < SLOTS_PER_EPOCH (cfg E) ->
+  0 < EFFECTIVE_BALANCE_INCREMENT (cfg E) -> epc_params_ok E ->
   (forall pk m s, bls_verify E pk m s = true -> pk_ok pk = true /\ sig_ok s = true) ->
   eth1_timestamp + GENESIS_DELAY (cfg E) < two64 ->
   N.of_nat (length deposits) <= 2 ^ 32 -> N.of_nat (length deposits) <= VALIDATOR_REGISTRY_LIMIT (cfg E) ->
@@ -118,7 +131,7 @@ Print Assumptions C13_genesis_from_eth1_refines.
 Theorem C13_genesis_from_eth1_refines_active :
   forall (E : Env) (pk_ok sig_ok : bytes -> bool) (eth1_block_hash : bytes) (eth1_timestamp : N) (deposits : list value),
   (forall x, length (Hash E x) = 32%nat) -> length (zero_hashes E 2) = 32%nat ->
-  0 < EFFECTIVE_BALANCE_INCREMENT (cfg E) -> 0 < SLOTS_PER_EPOCH (cfg E) ->
+  0 < EFFECTIVE_BALANCE_INCREMENT (cfg E) -> epc_params_ok E ->
   (forall pk m s, bls_verify E pk m s = true -> pk_ok pk = true /\ sig_ok s = true) ->
   eth1_timestamp + GENESIS_DELAY (cfg E) < two64 ->
   N.of_nat (length deposits) <= 2 ^ 32 -> N.of_nat (length deposits) <= VALIDATOR_REGISTRY_LIMIT (cfg E) ->
@@ -152,7 +165,7 @@ Theorem C13_kickstart_refines :
   forall (E : Env) (pk_ok sig_ok : bytes -> bool) (placeholder_sig eth1_block_hash : bytes) (time : N)
          (vs : list (bytes * bytes * N)) (proofs : list (list bytes)) (st : BeaconState),
   (forall x, length (Hash E x) = 32%nat) -> length (zero_hashes E 2) = 32%nat ->
-  0 < EFFECTIVE_BALANCE_INCREMENT (cfg E) -> 0 < SLOTS_PER_EPOCH (cfg E) -> GENESIS_DELAY (cfg E) < two64 ->
+  0 < EFFECTIVE_BALANCE_INCREMENT (cfg E) -> epc_params_ok E -> GENESIS_DELAY (cfg E) < two64 ->
   N.of_nat (length vs) <= 2 ^ 32 -> N.of_nat (length vs) <= VALIDATOR_REGISTRY_LIMIT (cfg E) ->
   sumN (map (fun v => snd v) vs) < two64 ->
   Forall (fun v => length (fst (fst v)) = 48%nat /\ Forall (fun b => b < 256) (fst (fst v))) vs ->
@@ -180,7 +193,7 @@ Example C13_genesis_nonvacuous :
   let E := GenesisExample.ex_env in
   let deposits := GenesisExample.ex_deposits in
   ((forall x, length (Hash E x) = 32%nat) /\ length (zero_hashes E 2) = 32%nat /\
-   0 < EFFECTIVE_BALANCE_INCREMENT (cfg E) /\ 0 < SLOTS_PER_EPOCH (cfg E) /\
+   0 < EFFECTIVE_BALANCE_INCREMENT (cfg E) /\ epc_params_ok E /\
    (forall pk m s, bls_verify E pk m s = true -> GenesisExample.ex_pk_ok pk = true /\ GenesisExample.ex_sig_ok s = true) /\
    990 + GENESIS_DELAY (cfg E) < two64 /\
    N.of_nat (length deposits) <= 2 ^ 32 /\ N.of_nat (length deposits) <= VALIDATOR_REGISTRY_LIMIT (cfg E) /\
